@@ -223,8 +223,8 @@ def _shard(ctx, classes: tuple, n: int) -> None:
 
 
 def run(ctx) -> None:
-    n = ctx.n(5, 60)
-    k = ctx.n(6, 16)  # few workers in the quick tier: the work is ~10 s serial, fork/scheduling overhead dominates beyond that
+    n = ctx.n(8, 60)
+    k = ctx.n(8, 16)  # few workers in the quick tier: the work is ~10 s serial, fork/scheduling overhead dominates beyond that
     shards = [(tuple(S.BODY_CLASSES[i::k]), n) for i in range(k)]
     parallel(ctx, _shard, shards)
     cal = {"frames": 0, "max_steps": 0, "max_steps_per_octet": 0.0, "max_mem_peak": 0, "min_step_headroom": 1e9, "min_mem_headroom": 1e9}
